@@ -135,6 +135,11 @@ class RecListener(plumpy.ProcessListener):
                 plumpy.Bundle(proc)
             except RuntimeError:
                 self.run.rec.ev(self.channel + '-save-failed', name)
+        if self.raising == 'base-terminal' and name in ('finished', 'killed', 'excepted'):
+            # an observer that, told of the ending, looks at a cancelled future: that raises asyncio.CancelledError, which is not an
+            # Exception -- the ending it was told about stays the ending all the same
+            import asyncio as _asyncio
+            raise _asyncio.CancelledError('the observer looked at a cancelled future')
         if self.raising is True or (self.raising == 'terminal' and name in ('finished', 'killed', 'excepted')):
             # a broken observer: plumpy logs this and carries on with the other listeners
             if name in ('finished', 'killed', 'excepted') and self.channel != 'listener':
@@ -416,7 +421,7 @@ class Run:
                 proc.add_cleanup(_FailingCleanup())
             if case.get('listener', True):
                 # ('raising-terminal': broken only in its handling of the three endings)
-                raising = {'raising': True, 'raising-terminal': 'terminal', 'checkpointing': 'checkpointing'}.get(case.get('listener'), False)
+                raising = {'raising': True, 'raising-terminal': 'terminal', 'checkpointing': 'checkpointing', 'raising-base': 'base-terminal'}.get(case.get('listener'), False)
                 self.listener = RecListener(self, raising=raising)
                 proc.add_process_listener(self.listener)
                 if case.get('listener') == 'twice':
